@@ -5,6 +5,7 @@ spec/PuzzleRules.tla states each puzzle's rules over GraphDefs; spec/MC_Puzzle.t
 solutions agree on; the real solve_<puzzle> (z3) must report exactly that."""
 import json
 import multiprocessing as mp
+from harness.par import RobustPool
 
 from harness.common import Check, NPROC, chunks
 from harness.tlc import run_tlc
@@ -63,7 +64,7 @@ def run(tier, seed):
             chk.add_tlc(res)
             cases += res.records
             covered.setdefault(pz, []).append(f"{h}x{w}:{len(res.records)}")
-    with mp.get_context("fork").Pool(NPROC) as pool:
+    with RobustPool(NPROC) as pool:
         outs = pool.map(PA.work, chunks(cases, NPROC * 6))
     got = [x for o in outs for x in o]
     inconclusive = 0
